@@ -12,6 +12,7 @@ RULE = (
     "scales 1e-2..1e4 x random chains of 2-4 constraints. Per item (index along dim 0 when batched, else the whole tensor): power law, positive real scaling, idempotence, scale "
     "invariance, peak / PAPR bounds, composite = sequential application. Distinct = (constraint configuration, signal family, shape, scale, seed); non-trivial = non-zero item."
     " Added after the seeded-fault rounds: batch-of-1 3-D/4-D layouts, one-sided negative and negative-spike signals, integer-valued int16/int32/int64/float64 inputs, constraints built through ConstraintRegistry.create as a sequence of different values compared with direct construction."
+    " Round 5: one long-lived object per class (Total, Average, Peak, PAPR, PerAntenna with uniform_power and with power_budget) across inputs of changing rank / complexity and with its public setting re-assigned in between = a fresh object built with the current setting."
 )
 ASSUMPTIONS = [
     "non-negligible power: input mean power >= 1e-4 (the library adds 1e-8 to its denominators); zero / negligible items are exempt from ratio and equality clauses",
@@ -20,7 +21,7 @@ ASSUMPTIONS = [
     "PeakAmplitudeConstraint on complex input raises (clamp unsupported): recorded as rejected",
     "MIMO composites are judged on upper bounds (PAPR clipping legitimately lowers power)",
 ]
-REQUIRED = ["power:never above target", "power:equal within 0.1%", "positive real scaling", "idempotent", "scale invariant", "peak amplitude bound", "PAPR bound", "composite = sequential", "factory composites satisfy all limits"]
+REQUIRED = ["power:never above target", "power:equal within 0.1%", "positive real scaling", "idempotent", "scale invariant", "peak amplitude bound", "PAPR bound", "composite = sequential", "factory composites satisfy all limits", "long-lived object = fresh object"]
 JOBS = {"quick": 8, "thorough": 16}
 TIMEOUT = {"quick": 900, "thorough": 3600}
 FAMILIES = ["gaussian", "uniform", "ofdm", "heavy", "constant", "alternating", "negative", "neg_spike"]
@@ -28,7 +29,7 @@ FAMILIES = ["gaussian", "uniform", "ofdm", "heavy", "constant", "alternating", "
 
 def units(tier, seed):
     out = []
-    out_extra = [{"unit": "registry-path", "kind": "registry", "rep": 0, "cost": 2}]
+    out_extra = [{"unit": "registry-path", "kind": "registry", "rep": 0, "cost": 2}, {"unit": "long-lived-objects", "kind": "longlived", "rep": 0, "cost": 2}]
     for name in ("total", "average", "perantenna", "peak", "papr", "composite", "ofdm_factory", "mimo_factory"):
         reps = 1 if tier == "quick" else 6
         for r in range(reps):
@@ -172,6 +173,52 @@ def run_unit(ctx, u):
                         continue
                     ctx.check(bool(torch.allclose(y_reg, y_dir, rtol=1e-6, atol=1e-7)), "registry object = direct object", f"{cls_.__name__}|registry|registry object = direct object|differs", keyword=kwname, value=v, complex=cplx)
         ctx.sample({"unit": u["unit"], "classes": [c.__name__ for c, _, _ in plans]})
+        return
+    if kind == "longlived":
+        # one long-lived object per class: applied to inputs of changing rank / dtype / complexity, and with its public
+        # setting re-assigned in between, it must answer exactly like a fresh object built with the current setting
+        plans = [
+            (K.TotalPowerConstraint, "total_power", [1.0, 4.0, 0.25, 100.0], None),
+            (K.AveragePowerConstraint, "average_power", [1.0, 0.1, 9.0], None),
+            (K.PeakAmplitudeConstraint, "max_amplitude", [1.0, 0.2, 5.0], None),
+            (K.PAPRConstraint, "max_papr", [4.0, 2.5, 8.0], None),
+            (K.PerAntennaPowerConstraint, "uniform_power", [1.0, 3.0, 0.5], None),
+            (K.PerAntennaPowerConstraint, "power_budget", [torch.tensor([1.0, 2.0, 0.5, 4.0]), torch.tensor([0.1, 0.2, 3.0, 1.0])], None),
+        ]
+        shapes_ll = [(3, 4, 16), (3, 4, 4, 4), (2, 4), (3, 4, 5), (1, 4, 16), (3, 4, 4, 4), (2, 4, 16)]
+        for cls_, attr, values, _ in plans:
+            try:
+                obj = cls_(**{attr: values[0]})
+            except Exception as e:  # noqa: BLE001
+                ctx.violation(f"{cls_.__name__}|long-lived object|long-lived object = fresh object|raised:{type(e).__name__}", error=str(e)[:200])
+                continue
+            plain = isinstance(getattr(obj, attr, None), (int, float)) or (attr == "power_budget" and torch.is_tensor(getattr(obj, attr, None)))
+            step = 0
+            for vi, v in enumerate(values + values[:1]):
+                if vi > 0:
+                    if not plain:
+                        ctx.skip(f"{cls_.__name__}.{attr} is not a plain attribute")
+                        break
+                    setattr(obj, attr, v.clone() if torch.is_tensor(v) else v)
+                for shape in shapes_ll:
+                    for cplx in (False, True):
+                        x = signal("gaussian", shape, cplx, 2.0, g)
+                        step += 1
+                        ctx.case("longlived", cls_.__name__, attr, vi, shape, cplx)
+                        tag = f"{cls_.__name__}({attr})|long-lived object"
+                        try:
+                            y_new = cls_(**{attr: v.clone() if torch.is_tensor(v) else v})(x.clone())
+                        except Exception:  # noqa: BLE001
+                            ctx.skip("input form rejected by a fresh object as well")
+                            continue
+                        try:
+                            y_old = obj(x.clone())
+                        except Exception as e:  # noqa: BLE001
+                            ctx.violation(f"{tag}|long-lived object = fresh object|raised:{type(e).__name__}", shape=list(shape), step=step, error=str(e)[:200])
+                            continue
+                        ok = tuple(y_old.shape) == tuple(y_new.shape) and y_old.dtype == y_new.dtype and bool(torch.allclose(y_old, y_new, rtol=1e-6, atol=1e-7))
+                        ctx.check(ok, "long-lived object = fresh object", f"{tag}|long-lived object = fresh object|differs", attribute=attr, value=v, shape=list(shape), complex=cplx, step=step, reassigned=vi > 0)
+        ctx.sample({"unit": u["unit"], "classes": [f"{c.__name__}({a})" for c, a, _, _ in plans], "shapes": [list(s_) for s_ in shapes_ll]})
         return
     if kind in ("total", "average"):
         for tgt in targets:
